@@ -277,7 +277,7 @@ P_PageSound(X, kind, f, pg, r) ==
 P_PageExact(X, kind, f, pg, r) == (r.err = "" /\ kind \in PagedKinds) => CsOf(r) = Slice(X, kind, f, pg).page
 \* next_key: empty only when nothing is left; otherwise it moves forward and skips no matching record
 P_NextSafe(X, kind, f, pg, r) ==
-  (r.err = "" /\ kind \in PagedKinds) =>
+  (r.err = "" /\ kind \in PagedKinds /\ \A i \in 1..Len(r.items) : r.items[i].c \in PresentCs(X, KStore(kind))) =>
     LET rest == Slice(X, kind, f, pg).rest  st == KStore(kind) IN
     /\ r.next = NoKey => rest = <<>>
     /\ r.next # NoKey =>
